@@ -77,9 +77,8 @@ def cast_op(ty, a):
         return (OK, a)
     if ty == "bool":
         return (OK, int(a != 0))
-    if ty == "short":
-        return (OK, ((a + 32768) % 65536) - 32768)
-    return (OK, ((a + 128) % 256) - 128)       # char: signed, 8 bit
+    lo, hi = (-32768, 32767) if ty == "short" else (-128, 127)      # char: signed, 8 bit
+    return (OK, a) if lo <= a <= hi else (UB, 0)
 
 
 def _worst(x, y):
